@@ -246,6 +246,13 @@ def binop(ctx, op, a, b, inplace=False):
                             return r
             elif isinstance(c, (HList,)) and not refl:
                 return list_binop(ctx, op, x, c, other, inplace)
+            elif isinstance(c, HDict) and not refl and isinstance(op, ast.BitOr) and isinstance(other, Ref) and isinstance(ctx.cell(other), HDict):
+                d = dict(c.d)
+                d.update(ctx.cell(other).d)
+                if inplace:
+                    ctx.wcell(x, "{}").d = d
+                    return x
+                return ctx.alloc(HDict(d))
     if isinstance(a, Ref) or isinstance(b, Ref):
         if isinstance(b, Ref) and isinstance(ctx.cell(b), HList) and isinstance(op, ast.Mult) and isinstance(a, int):
             return list_binop(ctx, op, b, ctx.cell(b), a, False)
